@@ -44,15 +44,20 @@ Qed.
 Lemma in_filter_notin x l m : In x (filter (fun y => negb (memN y m)) l) <-> In x l /\ ~ In x m.
 Proof. rewrite filter_In, neg_memN. tauto. Qed.
 
-Lemma pub_ok_nonempty pub k v : pub_ok pub = true -> s_get k pub = Some v -> snd v <> [].
+Definition pub_ne (pub : store) : Prop := forall k v, s_get k pub = Some v -> snd v <> [].
+
+Lemma pub_ok_ne pub : pub_ok pub = true -> pub_ne pub.
 Proof.
   unfold pub_ok. intros H. apply andb_prop in H as [H _]. rewrite forallb_forall in H.
-  induction pub as [|[k' v'] pub IH]; cbn [s_get]; [discriminate|].
-  destruct (k' =? k).
+  intros k. induction pub as [|[k' v'] pub IH]; cbn [s_get]; [discriminate|].
+  intros v. destruct (k' =? k).
   - intros E. inversion E; subst. specialize (H (k', v) (or_introl eq_refl)). cbn in H.
     intros N0. rewrite N0 in H. discriminate.
   - apply IH. intros x Hx. apply H. right. exact Hx.
 Qed.
+
+Lemma pub_ok_nonempty pub k v : pub_ne pub -> s_get k pub = Some v -> snd v <> [].
+Proof. intros H E. exact (H k v E). Qed.
 
 (* ---- the invariant of one key ---- *)
 Definition kinv (pub : store) (st : dstate) (k : N) : Prop :=
@@ -66,7 +71,7 @@ Definition kinv (pub : store) (st : dstate) (k : N) : Prop :=
      (forall p, s_get k pub = Some p -> fst w = fst p) /\
      (forall a, s_get k (ds_add st) = Some a -> fst a = fst w)).
 
-Lemma kinv_start pub k : pub_ok pub = true -> kinv pub (d_start pub) k.
+Lemma kinv_start pub k : pub_ne pub -> kinv pub (d_start pub) k.
 Proof.
   intros Hp. unfold kinv, d_start. cbn [ds_work ds_rem ds_add s_get rrs_data].
   split; [intros x; cbn; tauto|]. split; [intros x; cbn; tauto|].
@@ -81,7 +86,7 @@ Proof. apply list_eqb_spec. Qed.
 (* update_rrset on key k with a new non-empty RRset whose data differs from the
    published one as a set and whose TTL is the published one *)
 Lemma kinv_update pub st k t new :
-  ds_pub st = pub -> pub_ok pub = true -> kinv pub st k ->
+  ds_pub st = pub -> pub_ne pub -> kinv pub st k ->
   new <> [] ->
   (forall p, s_get k pub = Some p -> fst p = t /\ exists x, (In x (snd p) /\ ~ In x new) \/ (In x new /\ ~ In x (snd p))) ->
   (* the entries stay right when their computed replacement is empty *)
@@ -188,7 +193,7 @@ Proof. reflexivity. Qed.
 
 (* one good operation keeps the invariant of every key *)
 Lemma kinv_step pub st o k :
-  ds_pub st = pub -> pub_ok pub = true -> good_op o st = true ->
+  ds_pub st = pub -> pub_ne pub -> good_op o st = true ->
   k <> 0 -> kinv pub st k -> kinv pub (fst (d_step o st)) k /\ ds_pub (fst (d_step o st)) = pub.
 Proof.
   intros Hpub Hok G Hk I.
@@ -252,7 +257,7 @@ Proof.
 Qed.
 
 Lemma kinv_body ops : forall pub st k,
-  ds_pub st = pub -> pub_ok pub = true -> good_body ops st = true -> k <> 0 ->
+  ds_pub st = pub -> pub_ne pub -> good_body ops st = true -> k <> 0 ->
   kinv pub st k ->
   kinv pub (fst (d_run ops st)) k /\ ds_pub (fst (d_run ops st)) = pub.
 Proof.
@@ -267,7 +272,7 @@ Qed.
 
 (* ---- from the invariant to "the diff applies" at that key ---- *)
 Lemma kinv_applies pub st k :
-  pub_ok pub = true -> kinv pub st k ->
+  pub_ne pub -> kinv pub st k ->
   same_rrset (applied_at k pub (ds_rem st) (ds_add st)) (s_get k (ds_work st)).
 Proof.
   intros Hok [IR [IA [IW [IAn IT]]]]. unfold applied_at.
@@ -338,7 +343,7 @@ Qed.
 
 (* ---- the theorem ---- *)
 Theorem good_body_diff_applies pub body k :
-  pub_ok pub = true -> good_body body (d_start pub) = true -> k <> 0 ->
+  pub_ne pub -> good_body body (d_start pub) = true -> k <> 0 ->
   let st := fst (d_run body (d_start pub)) in
   same_rrset (applied_at k pub (ds_rem st) (ds_add st)) (s_get k (ds_work st)).
 Proof.
@@ -386,7 +391,7 @@ Proof.
     rewrite Lead. destruct (d_run r (d_start pub)) as [st ds]. cbn [fst snd].
     destruct ds; [right; reflexivity|left; split; reflexivity]. }
   destruct (rev ops') as [|[| | | | |s t] rbody] eqn:R; try discriminate.
-  apply andb_prop in G as [Hok G].
+  apply andb_prop in G as [Hok0 G]. pose proof (pub_ok_ne pub Hok0) as Hok.
   assert (E : ops' = rev rbody ++ [DFinish s t]).
   { rewrite <- (rev_involutive ops'), R. reflexivity. }
   set (body := rev rbody) in *.
@@ -412,7 +417,7 @@ Proof.
   (* the shape of the commit *)
   unfold d_commit in L |- *. rewrite Hp1', W0 in L. cbn [ds_work fst] in L |- *.
   assert (P0 : exists to so, s_get 0 pub = Some (to, [so])).
-  { unfold pub_ok in Hok. apply andb_prop in Hok as [_ H0].
+  { unfold pub_ok in Hok0. apply andb_prop in Hok0 as [_ H0].
     destruct (s_get 0 pub) as [[to [|so [|? ?]]]|]; try discriminate. eauto. }
   destruct P0 as [to [so P0]]. rewrite P0 in L.
   destruct (serial_range_invalid (soa_serial so) (soa_serial s)); [discriminate|].
